@@ -163,6 +163,7 @@ type Node struct {
 	Calls      []Call   `json:"calls,omitempty"`
 	Skip       string   `json:"skip,omitempty"`
 	SkipAt     int      `json:"skip_at,omitempty"`
+	SkipExec   int      `json:"skip_exec,omitempty"` // > 0: the skip happens in that execution of the test only
 	Parallel   bool     `json:"parallel,omitempty"`
 	Subs       []string `json:"subs,omitempty"`
 	Goroutines bool     `json:"goroutines,omitempty"`
